@@ -209,6 +209,12 @@ impl Assembler {
         let mut proc_roots = Vec::new();
         context.begin_module(path.unwrap_or(&LibraryPath::anon_path()), module)?;
 
+        // aliases of re-exported procedures are added to the procedure cache only after the whole
+        // module has compiled: otherwise a module which fails to compile would leave its aliases
+        // behind, and a later request for such an alias would succeed on this assembler instance
+        // although it fails on a fresh one
+        let mut proc_aliases = Vec::new();
+
         // process all re-exported procedures
         for reexporteed_proc in module.reexported_procs().iter() {
             // make sure the re-exported procedure is loaded into the procedure cache
@@ -219,20 +225,19 @@ impl Assembler {
 
             // if the library path is provided, build procedure ID for the alias and add it to the
             // procedure cache
-            let proc_mast_root = if let Some(path) = path {
+            if let Some(path) = path {
                 let proc_name = reexporteed_proc.name();
                 let alias_proc_id = ProcedureId::from_name(proc_name, path);
-                self.proc_cache
-                    .try_borrow_mut()
-                    .map_err(|_| AssemblyError::InvalidCacheLock)?
-                    .insert_proc_alias(alias_proc_id, ref_proc_id)?
-            } else {
-                self.proc_cache
-                    .try_borrow_mut()
-                    .map_err(|_| AssemblyError::InvalidCacheLock)?
-                    .get_proc_root_by_id(&ref_proc_id)
-                    .expect("procedure ID not in cache")
-            };
+                proc_aliases.push((alias_proc_id, ref_proc_id));
+            }
+            // (the referenced procedure may itself be an alias)
+            let proc_mast_root = self
+                .proc_cache
+                .try_borrow_mut()
+                .map_err(|_| AssemblyError::InvalidCacheLock)?
+                .get_by_id(&ref_proc_id)
+                .expect("procedure ID not in cache")
+                .mast_root();
 
             // add the MAST root of the re-exported procedure to the set of procedures exported
             // from this module
@@ -246,6 +251,14 @@ impl Assembler {
             self.compile_procedure(proc_ast, context)?;
         }
         let (module_procs, module_callset) = context.complete_module()?;
+
+        // the module compiled: register the aliases of its re-exported procedures
+        for (alias_proc_id, ref_proc_id) in proc_aliases {
+            self.proc_cache
+                .try_borrow_mut()
+                .map_err(|_| AssemblyError::InvalidCacheLock)?
+                .insert_proc_alias(alias_proc_id, ref_proc_id)?;
+        }
 
         // add the compiled procedures to the assembler's cache. the procedures are added to the
         // cache only if:
